@@ -249,6 +249,34 @@ def check_c16(sc, an):
         if v.prop == 'C01':
             V.append(Violation('C16', 'C16.state_changed', v.seq, v.detail, **v.info))
             return V
+    # 2b. elements that were waiting behind the failing one are processed as if it had not been offered: a
+    #     zip_latest that has everything it needs hands on every buffered element of its lossless input at its
+    #     next arrival after the failure, not only the newest one
+    ends = [a.end for a in an.acts if a.ok is False and a.end is not None]
+    last_fail = max(ends) if ends else None
+    for nid in an.order:
+        n = an.spec[nid]
+        if n['op'] != 'zip_latest' or last_fail is None:
+            continue
+        ups = list(n['up'])
+        missing = set(ups)
+        owed, waiting = [], []
+        for i in an.ins[nid]:
+            missing.discard(i.parent)
+            if i.parent == ups[0]:
+                waiting.append(i)
+            if not missing and i.seq > last_fail and i.ret is not None and not i.exc:
+                owed.extend(waiting)
+                waiting = []
+        from collections import Counter
+        tried = Counter(o.value[0] for o in an.outs[nid] if isinstance(o.value, tuple) and o.value)
+        need = Counter(i.value for i in owed)
+        lost = [v for v, c in need.items() if tried.get(v, 0) < c]
+        if lost:
+            V.append(Violation('C16', 'C16.lost_behind_failure', an.end_seq - 1,
+                               'zip_latest %d: %r arrived on its lossless input and waited behind an element whose consumer raised; '
+                               'later arrivals were handed on, these never were' % (nid, lost[:3]), node_op='zip_latest'))
+            return V
     # 3. never checkpointed
     for v in an.refcount_scan(want_c04=True, want_c05=False):
         if v.oracle == 'C04.callback_after_failure':
